@@ -139,5 +139,10 @@ package ast
 //@ unreachable statement nodes are never rendered (Expr.String requires an expression node)
 
 // children of expression nodes are expression nodes
+// grammar: ifStmt -> "if" "(" expression ")" statement ( "else" statement )? ; whileStmt / forStmt bodies are statements too:
+// a declaration is never a branch or a loop body (C08: accepted => derivable)
+//@ typeinv ast.IfStmt s: !isDecl(s.ThenBranch) && !isDecl(s.ElseBranch)
+//@ typeinv ast.While w: !isDecl(w.Body)
+//@ typeinv ast.ForStmt f: !isDecl(f.Body)
 //@ typeinv ast.Grouping g: nodeOK(g.Expression) && lvl(g.Expression) >= 0
 //@ typeinv ast.ArrayLiteral a: forall(k, 0, len(a.Elements), nodeOK(a.Elements[k]) && lvl(a.Elements[k]) >= 0)
